@@ -10,6 +10,7 @@ either discharges (unsat of the negation) or refutes with a model.
 from __future__ import annotations
 
 import math
+import os
 import time
 from fractions import Fraction
 
@@ -29,6 +30,9 @@ class Unsupported(Exception):
 class HarnessError(Exception):
     pass
 
+
+# the tree under test; VERIF_REPO lets bin/seedcheck.sh point the machinery at a scratch worktree with a seeded change
+REPO = os.environ.get("VERIF_REPO", "/repo").rstrip("/")
 
 _CUR = None  # the active Explorer (one per process)
 SYMTOKENS = {}
@@ -1171,7 +1175,7 @@ class Explorer:
             self.stats.unsupported += 1
         except Exception as e:  # the code under test raised
             import traceback
-            if not any(fs.filename.startswith("/repo/") for fs in traceback.extract_tb(e.__traceback__)):
+            if not any(fs.filename.startswith(REPO + "/") for fs in traceback.extract_tb(e.__traceback__)):
                 raise HarnessError(f"harness raised {type(e).__name__}: {e}\n" + traceback.format_exc()) from e
             out["status"] = "raised"
             out["error"] = f"{type(e).__name__}: {e}"
